@@ -49,6 +49,12 @@ pub fn compile_cases(prop: &str, tier: &str, seed: u64, rep: &mut Report, force_
     let focus: Vec<String> = std::fs::read_to_string(crate::pipeline::scratch_root().join(format!("focus-{prop}.json"))).ok().and_then(|t| serde_json::from_str(&t).ok()).unwrap_or_default();
     let mut n_focus = 0usize;
     let mut out = vec![];
+    // documents on which the extraction stage found model and implementation to differ
+    let focus_docs: Vec<Value> = std::fs::read_to_string(crate::pipeline::scratch_root().join(format!("focus-docs-{prop}.json"))).ok().and_then(|t| serde_json::from_str(&t).ok()).unwrap_or_default();
+    for (i, d) in focus_docs.into_iter().enumerate() {
+        rep.bump("cases_taken_from_extraction_disagreements");
+        out.push(EmitCase { label: format!("(focus-doc {i})"), doc: d, cfg: crate::pipeline::Cfg::new("Focus"), features: vec!["focus".into()] });
+    }
     let (mut g, mut triggered) = (0usize, 0usize);
     for mut c in all {
         let generated = c.label.starts_with("(generated");
@@ -352,4 +358,282 @@ fn check_example_run(rep: &mut Report, c: &EmitCase, em: &Emitted, stem: &str, r
     }
     rep.bump("examples_run");
     rep.bump(&format!("example_exit:{}", run.status));
+}
+
+// ---- K04 -------------------------------------------------------------------------------------------
+
+#[derive(Clone, Copy, PartialEq, Debug)]
+enum Mode { All, RequiredOnly, Nulls, Boundary }
+
+fn resolve<'a>(doc: &'a Value, s: &'a Value) -> (&'a Value, Option<String>) {
+    if let Some(r) = s["$ref"].as_str() {
+        let n = r.rsplit('/').next().unwrap_or("").to_string();
+        return (&doc["components"]["schemas"][&n], Some(n));
+    }
+    (s, None)
+}
+
+/// an instance valid for `schema` (OpenAPI meaning, supported types); `None` when the schema cannot be instantiated
+/// without following a reference cycle
+fn instance(doc: &Value, schema: &Value, mode: Mode, stack: &mut Vec<String>, depth: usize) -> Option<Value> {
+    use serde_json::json;
+    let (s, name) = resolve(doc, schema);
+    if let Some(n) = &name { if stack.contains(n) || depth > 6 { return None; } stack.push(n.clone()); }
+    let out = (|| -> Option<Value> {
+        if s.is_null() { return None; }
+        if mode == Mode::Nulls && s["nullable"] == json!(true) { return Some(Value::Null); }
+        if let Some(all) = s["allOf"].as_array() {
+            let mut merged = serde_json::Map::new();
+            let mut single: Option<Value> = None;
+            for m in all {
+                match instance(doc, m, mode, stack, depth + 1)? { Value::Object(o) => { for (k, v) in o { merged.insert(k, v); } } other => single = Some(other) }
+            }
+            if let (Some(v), true) = (&single, merged.is_empty()) { return Some(v.clone()); }
+            return Some(Value::Object(merged));
+        }
+        if s.get("oneOf").is_some() || s.get("anyOf").is_some() { return Some(json!("either")); }
+        let boundary = mode == Mode::Boundary;
+        match s["type"].as_str() {
+            Some("string") => {
+                if let Some(vals) = s["enum"].as_array() { return vals.get(if boundary { vals.len().saturating_sub(1) } else { 0 }).cloned(); }
+                Some(match s["format"].as_str() {
+                    Some("date") => json!(if boundary { "2024-02-29" } else { "2023-11-05" }),
+                    Some("date-time") => json!(if boundary { "1999-12-31T23:59:59Z" } else { "2024-01-31T10:20:30Z" }),
+                    Some("decimal") => json!(if boundary { "-0.05" } else { "12.50" }),
+                    Some("integer") => json!(if boundary { "-9223372036854775808" } else { "42" }),
+                    _ => json!(if boundary { "\u{fc}n\u{ef} \"q\" \\ \n\ttab \u{1F600}" } else { "text" }),
+                })
+            }
+            Some("integer") => {
+                if s["x-format"] == json!("date") || s["format"] == json!("date") { return Some(json!(if boundary { 20240229 } else { 20231105 })); }
+                if s.get("x-null-as-zero").is_some() { return Some(json!(if boundary { -3 } else { 7 })); }
+                Some(if boundary { json!(i64::MAX) } else { json!(42) })
+            }
+            Some("number") => Some(if boundary { json!(-2) } else { json!(1.5) }),
+            Some("boolean") => Some(json!(!boundary)),
+            Some("array") => Some(match instance(doc, &s["items"], mode, stack, depth + 1) { Some(v) => if boundary { json!([v.clone(), v]) } else { json!([v]) }, None => json!([]) }),
+            Some("object") | None => {
+                let props = s["properties"].as_object();
+                let required: Vec<&str> = s["required"].as_array().map(|a| a.iter().filter_map(|x| x.as_str()).collect()).unwrap_or_default();
+                let mut o = serde_json::Map::new();
+                if let Some(props) = props {
+                    for (k, ps) in props {
+                        let req = required.contains(&k.as_str());
+                        if mode == Mode::RequiredOnly && !req { continue; }
+                        match instance(doc, ps, mode, stack, depth + 1) {
+                            Some(v) => { o.insert(k.clone(), v); }
+                            None => if req { return None; },
+                        }
+                    }
+                }
+                if let Some(ap) = s.get("additionalProperties") {
+                    if props.map(|p| p.is_empty()).unwrap_or(true) {
+                        if ap.is_object() { if let Some(v) = instance(doc, ap, mode, stack, depth + 1) { o.insert("k1".into(), v.clone()); if boundary { o.insert("k 2".into(), v); } } }
+                        else if ap == &json!(true) { o.insert("k1".into(), json!(1)); }
+                    }
+                } else if props.is_none() && s["type"] == json!("object") { o.insert("free".into(), json!({"form": [1, "x"]})); }
+                if props.is_none() && s.get("type").is_none() && s.get("additionalProperties").is_none() { return Some(json!({"any": "thing"})); }
+                Some(Value::Object(o))
+            }
+            _ => None,
+        }
+    })();
+    if name.is_some() { stack.pop(); }
+    out
+}
+
+/// a list or map whose elements are integers carried as strings / dates carried as integers (types libninja only adapts at field level)
+fn adapter_type_in_container(doc: &Value, s: &Value, depth: usize) -> bool {
+    if depth > 6 { return false; }
+    let (s, _) = resolve(doc, s);
+    let adapted = |x: &Value| { let (x, _) = resolve(doc, x); (x["type"] == serde_json::json!("string") && x["format"] == serde_json::json!("integer")) || (x["type"] == serde_json::json!("integer") && x["x-format"] == serde_json::json!("date")) };
+    for key in ["items", "additionalProperties"] {
+        if let Some(e) = s.get(key) { if e.is_object() && (adapted(e) || adapter_type_in_container(doc, e, depth + 1)) { return true; } }
+    }
+    if let Some(p) = s["properties"].as_object() { if p.values().any(|x| adapter_type_in_container(doc, x, depth + 1)) { return true; } }
+    if let Some(a) = s["allOf"].as_array() { if a.iter().any(|x| adapter_type_in_container(doc, x, depth + 1)) { return true; } }
+    false
+}
+
+/// a list or map whose elements may be null
+fn nullable_in_container(doc: &Value, s: &Value, depth: usize) -> bool {
+    if depth > 6 { return false; }
+    let (s, _) = resolve(doc, s);
+    for key in ["items", "additionalProperties"] {
+        if let Some(e) = s.get(key) { if e.is_object() { let (r, _) = resolve(doc, e); if e["nullable"] == serde_json::json!(true) || r["nullable"] == serde_json::json!(true) || nullable_in_container(doc, e, depth + 1) { return true; } } }
+    }
+    if let Some(p) = s["properties"].as_object() { if p.values().any(|x| nullable_in_container(doc, x, depth + 1)) { return true; } }
+    if let Some(a) = s["allOf"].as_array() { if a.iter().any(|x| nullable_in_container(doc, x, depth + 1)) { return true; } }
+    false
+}
+
+/// required members whose absence must be rejected: non-nullable strings, numbers, booleans and `$ref`'d objects
+fn rejectable_required(doc: &Value, s: &Value) -> Vec<String> {
+    let (s, _) = resolve(doc, s);
+    let mut out = vec![];
+    let Some(props) = s["properties"].as_object() else { return out };
+    for r in s["required"].as_array().map(|a| a.iter().filter_map(|x| x.as_str()).collect::<Vec<_>>()).unwrap_or_default() {
+        let Some(ps) = props.get(r) else { continue };
+        let is_ref = ps.get("$ref").is_some();
+        let (t, _) = resolve(doc, ps);
+        if t["nullable"] == serde_json::json!(true) || ps["nullable"] == serde_json::json!(true) { continue; }
+        let ok = match t["type"].as_str() {
+            Some("string") => !matches!(t["format"].as_str(), Some("integer")),
+            Some("integer") => t.get("x-null-as-zero").is_none() && t["x-format"] != serde_json::json!("date"),
+            Some("number") | Some("boolean") => true,
+            Some("object") => is_ref && t.get("properties").is_some(),
+            _ => false,
+        };
+        if ok { out.push(r.to_string()); }
+    }
+    out
+}
+
+/// equality up to omission of null / absent members and empty arrays; numbers compared by value
+fn strip(v: &Value) -> Value {
+    match v {
+        Value::Object(o) => Value::Object(o.iter().filter_map(|(k, x)| { let s = strip(x); if s.is_null() || s == serde_json::json!([]) { None } else { Some((k.clone(), s)) } }).collect()),
+        Value::Array(a) => Value::Array(a.iter().map(strip).collect()),
+        Value::Number(n) => n.as_f64().and_then(|f| if f.fract() == 0.0 && f.abs() < 9e15 { Some(serde_json::json!(f as i64)) } else { None }).unwrap_or_else(|| v.clone()),
+        _ => v.clone(),
+    }
+}
+
+fn json_sexp(v: &Value) -> String {
+    match v {
+        Value::Null => "(jnull)".into(),
+        Value::Bool(b) => format!("(jbool {b})"),
+        Value::Number(n) => if n.is_i64() || n.is_u64() { format!("(jint {})", quote(&n.to_string())) } else { format!("(jfloat {})", quote(&n.to_string())) },
+        Value::String(s) => format!("(jstr {})", quote(s)),
+        Value::Array(a) => format!("(jarr{})", a.iter().map(|x| format!(" {}", json_sexp(x))).collect::<String>()),
+        Value::Object(o) => format!("(jobj{})", o.iter().map(|(k, x)| format!(" ({} {})", quote(k), json_sexp(x))).collect::<String>()),
+    }
+}
+
+fn sexp_json(s: &crate::sexp::Sexp) -> Option<Value> {
+    let l = s.as_list()?;
+    match l.first()?.as_atom()? {
+        "jnull" => Some(Value::Null),
+        "jbool" => Some(Value::Bool(l.get(1)?.as_atom()? == "true")),
+        "jint" => { let t = l.get(1)?.as_str()?; t.parse::<i64>().ok().map(|i| serde_json::json!(i)).or_else(|| t.parse::<u64>().ok().map(|i| serde_json::json!(i))) }
+        "jfloat" => l.get(1)?.as_str()?.parse::<f64>().ok().map(|f| serde_json::json!(f)),
+        "jstr" => Some(Value::String(l.get(1)?.as_str()?.to_string())),
+        "jarr" => l[1..].iter().map(sexp_json).collect::<Option<Vec<_>>>().map(Value::Array),
+        "jobj" => { let mut o = serde_json::Map::new(); for m in &l[1..] { let ml = m.as_list()?; o.insert(ml.first()?.as_str()?.to_string(), sexp_json(ml.get(1)?)?); } Some(Value::Object(o)) }
+        _ => None,
+    }
+}
+
+struct Inst { ty_key: String, ty_ident: String, kind: String, json: Value, expect_ok: bool }
+
+pub fn run_k04(tier: &str, seed: u64, out: &str) {
+    use mir_rust::ToRustIdent;
+    silence_panics();
+    let mut rep = Report::new("C04", tier, seed);
+    let cases = compile_cases("C04", tier, seed, &mut rep, false);
+    let tag = format!("k04-{tier}");
+    let n = cases.len();
+    let mut evals = 0u64;
+    let mut nontrivial = 0u64;
+    // instances per case, from the document's component schemas that are retained as models
+    let insts_of = |c: &EmitCase, em: &Emitted| -> Vec<Inst> {
+        let mut v = vec![];
+        let Some(comps) = c.doc["components"]["schemas"].as_object() else { return v };
+        for (k, s) in comps {
+            if !em.hir.schemas.contains_key(k) { continue; }
+            let ident = k.to_rust_struct().0;
+            for mode in [Mode::All, Mode::RequiredOnly, Mode::Nulls, Mode::Boundary] {
+                if let Some(j) = instance(&c.doc, s, mode, &mut vec![k.clone()], 0) {
+                    if !v.iter().any(|i: &Inst| i.ty_key == *k && i.json == j) { v.push(Inst { ty_key: k.clone(), ty_ident: ident.clone(), kind: format!("{mode:?}"), json: j, expect_ok: true }); }
+                }
+            }
+            // rejection is asked of generated structs (a typeless schema is carried as an untyped JSON value)
+            let is_struct = matches!(em.hir.schemas.get(k), Some(hir::Record::Struct(_))) && s["type"] == serde_json::json!("object");
+            if let (true, Some(Value::Object(full))) = (is_struct, instance(&c.doc, s, Mode::All, &mut vec![k.clone()], 0)) {
+                for r in rejectable_required(&c.doc, s) {
+                    let mut o = full.clone();
+                    if o.remove(&r).is_some() { v.push(Inst { ty_key: k.clone(), ty_ident: ident.clone(), kind: format!("without:{r}"), json: Value::Object(o), expect_ok: false }); }
+                }
+            }
+        }
+        v
+    };
+    let probe = |c: &EmitCase, em: &Emitted| -> Vec<(String, String)> {
+        let mut idents: Vec<String> = insts_of(c, em).iter().map(|i| i.ty_ident.clone()).collect();
+        idents.sort(); idents.dedup();
+        let mut src = format!("use {}::model::*;\nfn rt<T: serde::de::DeserializeOwned + serde::Serialize>(j: &str) -> String {{ match serde_json::from_str::<T>(j) {{ Ok(v) => format!(\"ok {{}}\", serde_json::to_string(&v).unwrap()), Err(e) => format!(\"err {{}}\", e.to_string().replace('\\n', \" \")) }} }}\nfn main() {{\n    let mut line = String::new();\n    while {{ line.clear(); std::io::stdin().read_line(&mut line).unwrap() > 0 }} {{\n        let (ty, json) = line.trim_end_matches('\\n').split_once('\\t').unwrap();\n        let out = match ty {{\n", lib_name(c));
+        for i in &idents { src.push_str(&format!("            {:?} => rt::<{}>(json),\n", i, i)); }
+        src.push_str("            _ => \"unknown-type\".to_string(),\n        };\n        println!(\"{}\", out);\n    }\n}\n");
+        vec![("zz_serde_probe".to_string(), src)]
+    };
+    if let Some(b) = build_all(&tag, cases, &mut rep, true, &probe) {
+        let mut jobs: Vec<(usize, Vec<Inst>)> = vec![];
+        for (i, c) in b.cases.iter().enumerate() {
+            let (Some(r), Some(em)) = (b.results.get(&format!("c{i}")), b.emitted[i].as_ref()) else { continue };
+            if !r.lib_errors.is_empty() { rep.bump("skipped_library_does_not_compile"); continue; }
+            if let Some(errs) = r.example_errors.get("zz_serde_probe") { rep.oracle_fail("probeDoesNotCompile", vec![], &case_text(c), &errs.first().cloned().unwrap_or_default()); continue; }
+            let insts = insts_of(c, em);
+            if insts.is_empty() { continue; }
+            jobs.push((i, insts));
+        }
+        let runs: Vec<cratecheck::RunOut> = model::par_map(&jobs, |(i, insts)| {
+            let input: String = insts.iter().map(|x| format!("{}\t{}\n", x.ty_ident, serde_json::to_string(&x.json).unwrap())).collect();
+            cratecheck::run_example(&b.tag, &format!("c{i}"), "zz_serde_probe", &[], &input, 60)
+        });
+        // the model on the same instances
+        let reqs: Vec<String> = jobs.iter().map(|(i, insts)| {
+            let hs = crate::specio::hir_spec(&b.emitted[*i].as_ref().unwrap().hir);
+            format!("(serde_rt {hs} (cases{}))", insts.iter().map(|x| format!(" ({} {})", quote(&x.ty_key), json_sexp(&x.json))).collect::<String>())
+        }).collect();
+        let mods = model::eval(&reqs);
+        for (((i, insts), run), m) in jobs.iter().zip(runs.iter()).zip(mods.iter()) {
+            let c = &b.cases[*i];
+            let lines: Vec<&str> = run.stdout.lines().collect();
+            if lines.len() != insts.len() { rep.oracle_fail("probeRunFailed", vec![], &case_text(c), &format!("{} lines for {} instances ({}): {}", lines.len(), insts.len(), run.status, run.stderr.chars().take(300).collect::<String>())); continue; }
+            let mres: Vec<crate::sexp::Sexp> = crate::sexp::parse(m).and_then(|s| s.as_list().map(|l| l[1..].to_vec())).unwrap_or_default();
+            nontrivial += 1;
+            for (k, (inst, line)) in insts.iter().zip(lines.iter()).enumerate() {
+                evals += 1;
+                rep.bump(&format!("instance:{}", if inst.expect_ok { inst.kind.as_str() } else { "without-required" }));
+                let what = format!("{} {} {}", inst.ty_key, inst.kind, serde_json::to_string(&inst.json).unwrap());
+                let real: Result<Value, String> = match line.strip_prefix("ok ") { Some(j) => serde_json::from_str(j).map_err(|e| e.to_string()), None => Err(line.to_string()) };
+                // oracle, independent of the model
+                match (&real, inst.expect_ok) {
+                    (Ok(j2), true) => if strip(j2) != strip(&inst.json) { rep.oracle_fail("roundTripDiffers", vec![], &case_text(c), &format!("{what} came back as {}", serde_json::to_string(j2).unwrap())); },
+                    (Err(e), true) => {
+                        let sch = &c.doc["components"]["schemas"][&inst.ty_key];
+                        let mut trig = vec![];
+                        if adapter_type_in_container(&c.doc, sch, 0) { trig.push("adapterTypeInsideContainer".to_string()); }
+                        if inst.kind == "Nulls" && nullable_in_container(&c.doc, sch, 0) { trig.push("nullableInsideContainer".to_string()); }
+                        rep.oracle_fail("validInstanceRejected", trig, &case_text(c), &format!("{what}: {e}"))
+                    }
+                    (Ok(j2), false) => rep.oracle_fail("missingRequiredAccepted", vec![], &case_text(c), &format!("{what} was accepted and printed as {}", serde_json::to_string(j2).unwrap())),
+                    (Err(_), false) => {}
+                }
+                // correspondence with the Lean serde semantics
+                let model: Option<Result<Value, String>> = mres.get(k).and_then(|s| { let l = s.as_list()?; match l.first()?.as_atom()? { "ok" => sexp_json(l.get(1)?).map(Ok), "err" => Some(Err(l.get(1)?.as_atom()?.to_string())), _ => None } });
+                match (&real, &model) {
+                    (_, Some(Err(e))) if e == "unmodelled" => rep.bump("model_declines_unmodelled"),
+                    (Ok(a), Some(Ok(b2))) => if strip_nums(a) != strip_nums(b2) { rep.disagree(&format!("{} {what}", case_text(c)), &serde_json::to_string(a).unwrap(), &serde_json::to_string(b2).unwrap()); },
+                    (Err(_), Some(Err(_))) => {}
+                    (a, b2) => rep.disagree(&format!("{} {what}", case_text(c)), &format!("{a:?}").chars().take(400).collect::<String>(), &format!("{b2:?}").chars().take(400).collect::<String>()),
+                }
+            }
+        }
+    }
+    cratecheck::cleanup(&tag);
+    rep.evaluations = evals;
+    rep.distinct_nontrivial = nontrivial;
+    rep.rule = format!("{n} generated crates built with a probe program; for every retained component schema, instances synthesised from the OpenAPI schema itself (all properties, required only, nulls for nullable, boundary strings / numbers, and one instance per rejectable required member with that member removed) go through serde_json::from_str / to_string on the compiled model; the result is judged against the instance (equal up to omitted null / empty-array members; removed required member rejected) and compared with the Lean serde semantics on the same instance");
+    rep.write(out);
+}
+
+/// numbers by value (1 and 1.0 are the same JSON number), objects unordered
+fn strip_nums(v: &Value) -> Value {
+    match v {
+        Value::Object(o) => Value::Object(o.iter().map(|(k, x)| (k.clone(), strip_nums(x))).collect()),
+        Value::Array(a) => Value::Array(a.iter().map(strip_nums).collect()),
+        Value::Number(n) => n.as_f64().and_then(|f| if f.fract() == 0.0 && f.abs() < 9e15 { Some(serde_json::json!(f as i64)) } else { None }).unwrap_or_else(|| v.clone()),
+        _ => v.clone(),
+    }
 }
